@@ -10,6 +10,9 @@
 #include <stdio.h>
 #include <string.h>
 #include <limits.h>
+#include <stdlib.h>
+#include <unistd.h>
+#include <sys/time.h>
 
 static void lean_str(const char *name, const char *s)
 {
@@ -49,5 +52,19 @@ int main(void)
     LEAN_NAT("PCP_MAXPATHNAMELEN", MAXPATHNAMELEN);
     LEAN_NAT("PCP_OFF_T_BITS", 8 * sizeof(off_t));
     LEAN_NAT("PCP_LONG_BITS", 8 * sizeof(long));
+    {   /* does this C library's utimes(3) multiply tv_usec by 1000 before anyone checks its range?  (glibc >= 2.34:
+         * utimes -> utimensat with tv_nsec = tv_usec * 1000 wrapped to 64 bits; LONG_MIN * 1000 wraps to 0) */
+        char tmpl[] = "/var/tmp/pdshverif-utimes-XXXXXX";
+        int fd = mkstemp(tmpl), wraps = 0;
+        if (fd >= 0) {
+            struct timeval tv[2];
+            tv[0].tv_sec = tv[1].tv_sec = 1000000000;
+            tv[0].tv_usec = tv[1].tv_usec = LONG_MIN;
+            wraps = utimes(tmpl, tv) == 0;
+            close(fd);
+            unlink(tmpl);
+        }
+        LEAN_NAT("PCP_UTIMES_WRAPS", wraps);
+    }
     return 0;
 }
